@@ -37,6 +37,7 @@ type task struct {
 	panicV  any
 	cmdErr  error
 	started bool
+	ready   func() bool // pending condition (channel operations)
 }
 
 type event struct {
@@ -150,11 +151,19 @@ func (s *sched) Wait(wg *verifhook.WaitGroup) {
 	s.yield(t)
 }
 
+func (s *sched) Block(kind string, ready func() bool) {
+	t := s.cur
+	t.kind, t.ready = "cond", ready
+	s.yield(t)
+}
+
 func (s *sched) enabled(t *task) bool {
 	if t.done {
 		return false
 	}
 	switch t.kind {
+	case "cond":
+		return t.ready()
 	case "lock":
 		return !t.mu.Held
 	case "wait":
@@ -247,6 +256,7 @@ type outcome struct {
 func runOnce(sc scenario, ch explore.Chooser) outcome {
 	s := &sched{ch: ch, back: make(chan struct{}), env: sc.env}
 	verifhook.S = s
+	verifhook.ResetChans()
 	defer func() { verifhook.S = nil }()
 	var fmts generator.Formatters
 	errs := make([]string, len(sc.reqs))
